@@ -25,7 +25,7 @@ REPLAY = os.path.join(ROOT, "replay")
 CORPUS = os.path.join(ROOT, "corpus")
 KNOWN = os.path.join(ROOT, "known_findings.txt")
 REPO = os.environ.get("VERIF_REPO", "/repo")
-NCPU = os.cpu_count() or 4
+NCPU = int(os.environ.get("VERIF_NCPU", os.cpu_count() or 4))
 
 for d in (BUILD, EVID, REPLAY):
     os.makedirs(d, exist_ok=True)
